@@ -68,7 +68,8 @@ fn gen_scenario(ch: &mut Chooser) -> Scenario {
     let kind = ch.choose("e6_kind", 3);
     let max_ops = *ch.pick("fn_size", &[4usize, 8, 16]);
     let fg = if kind == 2 {
-        gen_func_with(ch, max_ops, 0)
+        // shape level: the axes plus up to three bound variables
+        gen_func_with(ch, max_ops, 3)
     } else {
         gen_func(ch, max_ops)
     };
@@ -77,10 +78,19 @@ fn gen_scenario(ch: &mut Chooser) -> Scenario {
 
 fn shape_work<F: Function + MathFunction + Clone>(
     f: &F,
+    vars: &[Var],
     ops: &[Op],
 ) -> Vec<u64> {
-    use fidget_core::shape::{EzShape, Shape};
+    use fidget_core::shape::{EzShape, Shape, ShapeVars};
     let s = Shape::<F>::new_raw(f.clone());
+    // every variable bound by identity, to distinct values
+    let mut sv = ShapeVars::<f32>::new();
+    for (k, v) in vars.iter().enumerate() {
+        if let Some(i) = v.index() {
+            sv.insert(i, 0.625 + 0.75 * k as f32);
+        }
+    }
+    let sv = &sv;
     let mut out = vec![];
     for op in ops {
         let mut h = 0u64;
@@ -97,7 +107,7 @@ fn shape_work<F: Function + MathFunction + Clone>(
                 let p = p3(v);
                 let t = s.ez_point_tape();
                 let mut e = Shape::<F>::new_point_eval();
-                push(e.eval(&t, p[0], p[1], p[2]).unwrap().0.to_bits());
+                push(e.eval_with_vars(&t, p[0], p[1], p[2], sv).unwrap().0.to_bits());
             }
             Op::Interval(b) | Op::Simplify(b) => {
                 let lo = p3(&b.iter().map(|x| x.0).collect::<Vec<_>>());
@@ -105,7 +115,7 @@ fn shape_work<F: Function + MathFunction + Clone>(
                 let iv = |k: usize| Interval::new(lo[k].min(hi[k]), lo[k].max(hi[k]));
                 let t = s.ez_interval_tape();
                 let mut e = Shape::<F>::new_interval_eval();
-                let (o, tr) = e.eval(&t, iv(0), iv(1), iv(2)).unwrap();
+                let (o, tr) = e.eval_with_vars(&t, iv(0), iv(1), iv(2), sv).unwrap();
                 push(o.lower().to_bits());
                 push(o.upper().to_bits());
                 if let (Op::Simplify(_), Some(tr)) = (op, tr) {
@@ -113,7 +123,7 @@ fn shape_work<F: Function + MathFunction + Clone>(
                     push(c.size() as u32);
                     let ct = c.ez_point_tape();
                     let mut pe = Shape::<F>::new_point_eval();
-                    push(pe.eval(&ct, lo[0], lo[1], lo[2]).unwrap().0.to_bits());
+                    push(pe.eval_with_vars(&ct, lo[0], lo[1], lo[2], sv).unwrap().0.to_bits());
                 }
             }
             Op::Float(c) | Op::Grad(c) => {
@@ -132,7 +142,7 @@ fn shape_work<F: Function + MathFunction + Clone>(
                 if matches!(op, Op::Float(_)) {
                     let t = s.ez_float_slice_tape();
                     let mut e = Shape::<F>::new_float_slice_eval();
-                    for v in e.eval(&t, &xs, &ys, &zs).unwrap() {
+                    for v in e.eval_with_vars(&t, &xs, &ys, &zs, sv).unwrap() {
                         push(v.to_bits());
                     }
                 } else {
@@ -147,7 +157,7 @@ fn shape_work<F: Function + MathFunction + Clone>(
                     };
                     let t = s.ez_grad_slice_tape();
                     let mut e = Shape::<F>::new_grad_slice_eval();
-                    for v in e.eval(&t, &g(&xs, 0), &g(&ys, 1), &g(&zs, 2)).unwrap() {
+                    for v in e.eval_with_vars(&t, &g(&xs, 0), &g(&ys, 1), &g(&zs, 2), sv).unwrap() {
                         push(v.v.to_bits());
                         push(v.dx.to_bits());
                         push(v.dy.to_bits());
@@ -175,6 +185,7 @@ fn tapes_of<F: Function + Clone>(f: &F) -> SharedTapes<F> {
 fn thread_work<F: Function + MathFunction + Clone>(
     kind: u32,
     f: &F,
+    vars: &[Var],
     sh: Option<&SharedTapes<F>>,
     ops: &[Op],
 ) -> Vec<u64> {
@@ -184,7 +195,7 @@ fn thread_work<F: Function + MathFunction + Clone>(
             let sh = tapes_of(f);
             work::<F>(&sh, ops)
         }
-        _ => shape_work::<F>(f, ops),
+        _ => shape_work::<F>(f, vars, ops),
     }
 }
 
@@ -195,7 +206,7 @@ fn child_go<F: Function + MathFunction + Clone + Send + Sync + 'static>(
 where
     SharedTapes<F>: Send + Sync,
 {
-    let build = || -> Option<F> {
+    let build = || -> Option<(F, Vec<Var>)> {
         let mut ctx = Context::new();
         let vars: Vec<Var> = (0..sc.fg.nvars).map(|_| Var::new()).collect();
         let nodes = sc.fg.dag.lower(&mut ctx, &vars);
@@ -205,29 +216,61 @@ where
             outs.truncate(1);
         }
         match rt::catch(|| F::new(&ctx, &outs)) {
-            Ok(Ok(f)) => Some(f),
+            Ok(Ok(f)) => Some((f, vars)),
             _ => None,
         }
     };
     // the shared instance, and an independent one for the solo reference so
     // that nothing lazy is pre-computed on the shared one
     rt::set_random_seed(0xE6E6);
-    let Some(f) = build() else { return 4 };
+    let Some((f, vars)) = build() else { return 4 };
     rt::set_random_seed(0xE6E6);
-    let Some(f_ref) = build() else { return 4 };
+    // (`Var::new` draws from a per-thread generator that is seeded once, so
+    // the second instance has other variable ids: each side uses its own)
+    let Some((f_ref, vars_ref)) = build() else { return 4 };
     let nvars = f.vars().len();
-    let ops: [Vec<Op>; 2] = [gen_ops(ch, nvars), gen_ops(ch, nvars)];
+    let mut ops: [Vec<Op>; 2] = [gen_ops(ch, nvars), gen_ops(ch, nvars)];
+    // caches and memos are keyed by what was asked before: one operation in
+    // three repeats an earlier one of either thread (same trace, same inputs),
+    // and simplifications are more frequent than in the E5 lists
+    for t in 0..2 {
+        for k in 0..ops[t].len() {
+            match ch.choose("e6_op_bias", 6) {
+                0 | 1 => {
+                    let pool: Vec<Op> = ops[1 - t]
+                        .iter()
+                        .chain(ops[t][..k].iter())
+                        .cloned()
+                        .collect();
+                    if !pool.is_empty() {
+                        let j = ch.choose("e6_repeat_of", pool.len() as u32) as usize;
+                        ops[t][k] = pool[j].clone();
+                    }
+                }
+                2 => {
+                    if let Op::Interval(b) = &ops[t][k] {
+                        ops[t][k] = Op::Simplify(b.clone());
+                    }
+                }
+                _ => (),
+            }
+        }
+    }
     let kind = sc.kind;
     let solo = rt::catch(|| {
         let sh_ref = if kind == 0 { Some(tapes_of(&f_ref)) } else { None };
         [
-            thread_work::<F>(kind, &f_ref, sh_ref.as_ref(), &ops[0]),
-            thread_work::<F>(kind, &f_ref, sh_ref.as_ref(), &ops[1]),
+            thread_work::<F>(kind, &f_ref, &vars_ref, sh_ref.as_ref(), &ops[0]),
+            thread_work::<F>(kind, &f_ref, &vars_ref, sh_ref.as_ref(), &ops[1]),
         ]
     });
-    let Ok(solo) = solo else {
-        // panics without any concurrency are not this clause's business
-        return 4;
+    let solo = match solo {
+        Ok(s) => s,
+        Err(p) => {
+            // panics without any concurrency are not this clause's business
+            dbg(|| format!("solo pass panicked: {p}"));
+            return 4;
+        }
     };
     drop(f_ref);
     let sh: Option<Arc<SharedTapes<F>>> = if kind == 0 {
@@ -244,16 +287,24 @@ where
         let sh = sh.clone();
         let ops = ops[which].clone();
         let ready = ready.clone();
+        let vars = vars.clone();
         std::thread::Builder::new()
             .stack_size(16 << 20)
             .spawn(move || {
                 ready.store(true, Ordering::SeqCst);
-                marker(sig);
-                let r = rt::catch(|| {
-                    thread_work::<F>(kind, &f, sh.as_deref(), &ops)
-                });
-                marker(sig);
-                r
+                // the panic-capture bookkeeping (process-wide statics of the
+                // harness) stays outside the markers
+                rt::catch(|| {
+                    struct EndMarker(i32);
+                    impl Drop for EndMarker {
+                        fn drop(&mut self) {
+                            marker(self.0);
+                        }
+                    }
+                    marker(sig);
+                    let _end = EndMarker(sig);
+                    thread_work::<F>(kind, &f, &vars, sh.as_deref(), &ops)
+                })
             })
             .expect("spawn")
     };
@@ -609,43 +660,56 @@ enum StepEnd {
     Failed(String),
 }
 
-/// Single-steps A `n` times from its start marker (which is suppressed).  With
-/// `inspect`, calls it with (step index, rip, instruction bytes) before each step.
-fn step_a(
-    c: &Child,
+fn gp_regs(r: &libc::user_regs_struct) -> [u64; 16] {
+    [
+        r.rax, r.rcx, r.rdx, r.rbx, r.rsp, r.rbp, r.rsi, r.rdi, r.r8, r.r9, r.r10,
+        r.r11, r.r12, r.r13, r.r14, r.r15,
+    ]
+}
+
+/// Single-steps thread `tid` `n` times from where it is stopped (a pending
+/// marker signal is suppressed).  With `inspect`, calls it with (step index,
+/// registers, instruction bytes) before each step.  `end_sig` is the thread's
+/// marker signal.
+fn step_thread(
+    tid: i32,
+    end_sig: i32,
     n: u64,
-    mut inspect: Option<&mut dyn FnMut(u64, u64, &[u8; 16])>,
+    mut inspect: Option<&mut dyn FnMut(u64, &libc::user_regs_struct, &[u8; 16])>,
 ) -> StepEnd {
     for i in 0..n {
         if let Some(f) = inspect.as_mut() {
             let mut regs: libc::user_regs_struct = unsafe { std::mem::zeroed() };
-            pt(libc::PTRACE_GETREGS, c.a, 0, &mut regs as *mut _ as usize);
+            pt(libc::PTRACE_GETREGS, tid, 0, &mut regs as *mut _ as usize);
             let mut code = [0u8; 16];
             for w in 0..2 {
-                unsafe { *libc::__errno_location() = 0 };
                 let v = pt(
                     libc::PTRACE_PEEKTEXT,
-                    c.a,
+                    tid,
                     regs.rip as usize + 8 * w,
                     0,
                 );
                 code[8 * w..8 * w + 8].copy_from_slice(&v.to_le_bytes());
             }
-            f(i, regs.rip, &code);
+            f(i, &regs, &code);
         }
-        pt(libc::PTRACE_SINGLESTEP, c.a, 0, 0);
-        match wait_tid(c.a, true) {
+        pt(libc::PTRACE_SINGLESTEP, tid, 0, 0);
+        match wait_tid(tid, true) {
             Some(Stop::Sig(libc::SIGTRAP)) => (),
-            Some(Stop::Sig(s)) if s == SIG_A => return StepEnd::Done(i + 1),
+            Some(Stop::Sig(s)) if s == end_sig => return StepEnd::Done(i + 1),
             Some(Stop::Sig(s)) => {
                 // another signal (SIGSEGV ...): deliver it and let the child die
-                cont(c.a, s);
-                return StepEnd::Failed(format!("thread A got signal {s} at step {i}"));
+                cont(tid, s);
+                return StepEnd::Failed(format!("thread {tid} got signal {s} at step {i}"));
             }
-            other => return StepEnd::Failed(format!("thread A at step {i}: {other:?}")),
+            other => return StepEnd::Failed(format!("thread {tid} at step {i}: {other:?}")),
         }
     }
     StepEnd::Reached
+}
+
+fn step_a(c: &Child, n: u64) -> StepEnd {
+    step_thread(c.a, SIG_A, n, None)
 }
 
 /// Outcome of one traced execution
@@ -940,17 +1004,15 @@ fn run_a_to(
     }
 }
 
-/// Discovery: the sequence of synchronising instructions (addresses inside the
-/// executable) that thread A executes between its markers
+/// Discovery: the sequence of synchronising instructions (absolute addresses
+/// inside the executable) that thread A executes between its markers
 pub fn discover(seed: u64) -> Result<Option<Vec<u64>>, String> {
     let c = match start_child(seed) {
         Ok(c) => c,
         Err(e) if e.contains("exited early with 4") => return Ok(None),
         Err(e) => return Err(e),
     };
-    dbg(|| format!("child started pid {} a {} b {}", c.pid, c.a, c.b));
     let base = load_base(c.pid).ok_or("no load base")?;
-    dbg(|| format!("base {base:#x}, {} sites", sync_sites().len()));
     let mut bps = std::collections::HashMap::new();
     for v in sync_sites() {
         let a = base + v;
@@ -961,33 +1023,135 @@ pub fn discover(seed: u64) -> Result<Option<Vec<u64>>, String> {
         return Err("discovery ended before A's end marker".into());
     }
     // the child is killed here (Drop): B never ran with breakpoints planted
-    Ok(Some(hits.iter().map(|a| a - base).collect()))
+    Ok(Some(hits))
 }
 
-/// Where thread A is frozen in a trial
+/// Memory of the child that both worker threads can reach and that existed
+/// before they started: the main heap and the executable's writable segments
+fn shared_ranges(pid: i32) -> Vec<(u64, u64)> {
+    let exe = std::fs::read_link(format!("/proc/{pid}/exe")).ok();
+    let maps = std::fs::read_to_string(format!("/proc/{pid}/maps"))
+        .unwrap_or_default();
+    let mut out = vec![];
+    let mut exe_end = 0u64;
+    for l in maps.lines() {
+        let f: Vec<&str> = l.split_whitespace().collect();
+        if f.len() < 5 {
+            continue;
+        }
+        let Some((a, b)) = f[0].split_once('-') else { continue };
+        let (Ok(a), Ok(b)) = (u64::from_str_radix(a, 16), u64::from_str_radix(b, 16))
+        else {
+            continue;
+        };
+        let path = f.get(5).copied();
+        let writable = f[1].contains('w');
+        let is_exe = match (path, &exe) {
+            (Some(p), Some(e)) => std::path::Path::new(p) == e.as_path(),
+            _ => false,
+        };
+        if is_exe {
+            exe_end = b;
+            if writable {
+                out.push((a, b));
+            }
+        } else if path == Some("[heap]") || (path.is_none() && a == exe_end && writable) {
+            // the main heap; the bss right behind the executable's data
+            out.push((a, b));
+        }
+    }
+    out
+}
+
+/// One access of a stepped thread to shared memory
 #[derive(Debug, Clone, Copy)]
+struct Access {
+    /// address of the instruction and how many times it had executed before
+    /// (so that (rip, nth) names the step)
+    rip: u64,
+    nth: usize,
+    /// accessed address rounded down to 8 bytes
+    key: u64,
+    write: bool,
+}
+
+/// Deep discovery: single-steps one worker (A or B, the other one stays at its
+/// start marker) through its whole list, decoding every instruction, and
+/// returns its accesses to shared memory made from the code under test
+fn shared_accesses(seed: u64, which_b: bool, max_steps: u64) -> Result<Option<Vec<Access>>, String> {
+    let c = match start_child(seed) {
+        Ok(c) => c,
+        Err(e) if e.contains("exited early with 4") => return Ok(None),
+        Err(e) => return Err(e),
+    };
+    let code = code_ranges(c.pid);
+    let shared = shared_ranges(c.pid);
+    let (tid, sig) = if which_b { (c.b, SIG_B) } else { (c.a, SIG_A) };
+    let mut seen: std::collections::HashMap<u64, usize> = Default::default();
+    let mut out: Vec<Access> = vec![];
+    // a rip-relative operand is resolved one step later, when the address of
+    // the next instruction is known
+    let mut pending: Option<(crate::x86mem::Mem, [u64; 16], u64, usize)> = None;
+    let mut note = |m: &crate::x86mem::Mem, regs: &[u64; 16], next: u64, rip: u64, nth: usize, out: &mut Vec<Access>| {
+        let ea = crate::x86mem::effective(m, regs, next);
+        if shared.iter().any(|(a, b)| ea >= *a && ea < *b) {
+            if m.read && !m.write {
+                out.push(Access { rip, nth, key: ea & !7, write: false });
+            } else {
+                out.push(Access { rip, nth, key: ea & !7, write: true });
+            }
+        }
+    };
+    let mut f = |_i: u64, r: &libc::user_regs_struct, bytes: &[u8; 16]| {
+        let rip = r.rip;
+        if let Some((m, regs, prip, nth)) = pending.take() {
+            let d = rip.wrapping_sub(prip);
+            if (1..=15).contains(&d) {
+                note(&m, &regs, rip, prip, nth, &mut out);
+            }
+        }
+        let nth = {
+            let e = seen.entry(rip).or_insert(0);
+            *e += 1;
+            *e - 1
+        };
+        if !code.iter().any(|(a, b)| rip >= *a && rip < *b) {
+            return;
+        }
+        if let Some(m) = crate::x86mem::decode(bytes) {
+            let regs = gp_regs(r);
+            if m.rip_rel {
+                pending = Some((m, regs, rip, nth));
+            } else {
+                note(&m, &regs, 0, rip, nth, &mut out);
+            }
+        }
+    };
+    match step_thread(tid, sig, max_steps, Some(&mut f)) {
+        StepEnd::Done(_) => Ok(Some(out)),
+        StepEnd::Reached => Ok(None), // too long for a deep pass
+        StepEnd::Failed(e) => Err(e),
+    }
+}
+
+/// Where thread A is frozen in a trial: just before the `nth` (0-based)
+/// execution of the instruction at `addr`, plus `extra` single steps
+#[derive(Debug, Clone, Copy, PartialEq, Eq, PartialOrd, Ord, Hash)]
 pub struct Point {
-    /// index into the discovered sequence of synchronising instructions
-    pub hit: usize,
-    /// instructions executed beyond "just before that instruction"
+    pub addr: u64,
+    pub nth: usize,
     pub extra: u64,
 }
 
 /// One trial: A runs to `point`, is frozen, B runs its whole list, A resumes
-pub fn trial(seed: u64, seq: &[u64], point: Point) -> (Verdict, bool) {
+pub fn trial(seed: u64, point: Point) -> (Verdict, bool) {
     let c = match start_child(seed) {
         Ok(c) => c,
         Err(e) => return (Verdict::Harness(e), false),
     };
-    let Some(base) = load_base(c.pid) else {
-        return (Verdict::Harness("no load base".into()), false);
-    };
-    // one breakpoint: the target instruction; count its earlier executions
-    let site = base + seq[point.hit];
-    let occurrence = seq[..=point.hit].iter().filter(|a| **a == seq[point.hit]).count();
     let mut bps = std::collections::HashMap::new();
-    bps.insert(site, set_bp(c.a, site));
-    match run_a_to(&c, &bps, Some(occurrence)) {
+    bps.insert(point.addr, set_bp(c.a, point.addr));
+    match run_a_to(&c, &bps, Some(point.nth + 1)) {
         Ok((_, false)) => (),
         Ok((_, true)) => {
             return (
@@ -999,7 +1163,7 @@ pub fn trial(seed: u64, seq: &[u64], point: Point) -> (Verdict, bool) {
     }
     let mut a_done = false;
     if point.extra > 0 {
-        match step_a(&c, point.extra, None) {
+        match step_a(&c, point.extra) {
             StepEnd::Reached => (),
             StepEnd::Done(_) => a_done = true,
             StepEnd::Failed(e) => return (Verdict::Harness(e), false),
@@ -1017,17 +1181,53 @@ pub fn available() -> bool {
     !sync_sites().is_empty()
 }
 
+/// Points of the synchronisation skeleton: just before and just after every
+/// synchronising instruction A executes
+fn skeleton_points(seq: &[u64]) -> Vec<Point> {
+    let mut out = vec![];
+    for (k, a) in seq.iter().enumerate() {
+        let nth = seq[..k].iter().filter(|b| *b == a).count();
+        out.push(Point { addr: *a, nth, extra: 0 });
+        out.push(Point { addr: *a, nth, extra: 1 });
+    }
+    out
+}
+
+/// Points of the conflict analysis: just before and just after every access
+/// of A to a shared address that B also touches, one of the two writing
+fn conflict_points(a: &[Access], b: &[Access]) -> Vec<Point> {
+    use std::collections::HashSet;
+    let b_written: HashSet<u64> = b.iter().filter(|x| x.write).map(|x| x.key).collect();
+    let b_any: HashSet<u64> = b.iter().map(|x| x.key).collect();
+    let mut out = vec![];
+    for x in a {
+        let conflict = if x.write { b_any.contains(&x.key) } else { b_written.contains(&x.key) };
+        if conflict {
+            out.push(Point { addr: x.rip, nth: x.nth, extra: 0 });
+            out.push(Point { addr: x.rip, nth: x.nth, extra: 1 });
+        }
+    }
+    out.sort();
+    out.dedup();
+    out
+}
+
 pub fn run(st: &Shared, tier: Tier, rep: &mut RunReport) {
-    let (seed, max_trials) = {
+    let (seed, max_trials, deep) = {
         let ch = &mut st.borrow_mut().ch;
         let hi = ch.choose("e6_seed_hi", 1 << 30) as u64;
         let lo = ch.choose("e6_seed_lo", 1 << 30) as u64;
+        let deep = match tier {
+            Tier::Quick => ch.odds("e6_deep", 1, 12),
+            Tier::Thorough => ch.odds("e6_deep", 1, 3),
+        };
         (
             (hi << 30) | lo,
             match tier {
                 Tier::Quick => 32usize,
                 Tier::Thorough => 96,
             },
+            deep,
         )
     };
     rep.sample = format!("step-sim child seed {seed}");
@@ -1049,20 +1249,58 @@ pub fn run(st: &Shared, tier: Tier, rep: &mut RunReport) {
             return;
         }
     };
-    let seq_hash = seq.iter().fold(0u64, |h, a| mix(h, *a));
-    st.borrow_mut().log("e6_discovery", seq.len() as u64, seq_hash);
+    st.borrow_mut().log("e6_discovery", seq.len() as u64, 0);
     rep.count("sched.step_sim_scenarios", 1);
     rep.count("e6.sync_instructions_executed_by_first_thread", seq.len() as u64);
-    // preemption points: just before and just after every synchronising
-    // instruction A executes, and a few instructions further (windows that
-    // end in a plain load or store)
+    let all = skeleton_points(&seq);
     let mut points: Vec<Point> = vec![];
+    let mut from_conflicts: std::collections::HashSet<Point> = Default::default();
+    // deep pass: conflicting accesses to shared memory, plain loads and
+    // stores included
+    if deep {
+        let acc = (|| -> Result<Option<(Vec<Access>, Vec<Access>)>, String> {
+            let Some(a) = shared_accesses(seed, false, 150_000)? else { return Ok(None) };
+            let Some(b) = shared_accesses(seed, true, 150_000)? else { return Ok(None) };
+            Ok(Some((a, b)))
+        })();
+        match acc {
+            Ok(Some((a, b))) => {
+                let cp = conflict_points(&a, &b);
+                rep.count("sched.step_sim_deep_scenarios", 1);
+                rep.count("e6.shared_accesses_of_first_thread", a.len() as u64);
+                rep.count("e6.shared_writes_of_first_thread", a.iter().filter(|x| x.write).count() as u64);
+                rep.count("e6.conflict_points", cp.len() as u64);
+                st.borrow_mut().log("e6_deep", a.len() as u64, cp.len() as u64);
+                // conflicting accesses made by plain loads and stores first:
+                // the synchronising ones are in the skeleton anyway
+                let (plain, synced): (Vec<Point>, Vec<Point>) =
+                    cp.iter().partition(|p| !seq.contains(&p.addr));
+                rep.count("e6.conflict_points_at_plain_accesses", plain.len() as u64);
+                from_conflicts.extend(plain.iter().copied());
+                let ch = &mut st.borrow_mut().ch;
+                let room = max_trials / 2;
+                for set in [&plain, &synced] {
+                    let left = room.saturating_sub(points.len());
+                    if set.len() <= left {
+                        points.extend(set.iter());
+                    } else {
+                        for _ in 0..left {
+                            points.push(set[ch.choose("e6_conflict_point", set.len() as u32) as usize]);
+                        }
+                    }
+                }
+            }
+            Ok(None) => rep.count("e6.deep_pass_too_long", 1),
+            Err(e) => {
+                rep.count("e6.harness_error", 1);
+                rep.sample = format!("step-sim child seed {seed} deep pass: {e}");
+            }
+        }
+    }
     {
         let ch = &mut st.borrow_mut().ch;
-        let all: Vec<Point> = (0..seq.len())
-            .flat_map(|hit| [Point { hit, extra: 0 }, Point { hit, extra: 1 }])
-            .collect();
-        let n_main = max_trials * 3 / 4;
+        let left = max_trials.saturating_sub(points.len());
+        let n_main = left * 3 / 4;
         if all.len() <= n_main {
             points.extend(&all);
         } else {
@@ -1070,38 +1308,46 @@ pub fn run(st: &Shared, tier: Tier, rep: &mut RunReport) {
                 points.push(all[ch.choose("e6_sync_point", all.len() as u32) as usize]);
             }
         }
-        if !seq.is_empty() {
-            for _ in 0..(max_trials - points.len().min(max_trials)).min(max_trials / 4) {
-                let hit = ch.choose("e6_offset_hit", seq.len() as u32) as usize;
+        // a few instructions beyond a synchronising one (windows that end in
+        // a plain load or store)
+        if !all.is_empty() {
+            for _ in 0..(max_trials.saturating_sub(points.len())).min(max_trials / 4) {
+                let p = all[ch.choose("e6_offset_hit", all.len() as u32) as usize];
                 let extra = 2 + ch.choose("e6_offset", 40) as u64;
-                points.push(Point { hit, extra });
+                points.push(Point { extra, ..p });
             }
         }
     }
-    points.sort_by_key(|p| (p.hit, p.extra));
-    points.dedup_by_key(|p| (p.hit, p.extra));
+    points.sort();
+    points.dedup();
+    let base = seq.first().map(|a| a & !0xfff).unwrap_or(0);
+    let _ = base;
     for p in points {
-        let (v, blocked) = trial(seed, &seq, p);
+        let (v, blocked) = trial(seed, p);
         rep.count("fault.preempted_at_instruction", 1);
         if blocked {
             rep.count("e6.second_thread_blocked_by_frozen_first", 1);
         }
         st.borrow_mut().log(
             "e6_trial",
-            (p.hit as u64) << 8 | p.extra,
+            ((p.nth as u64) << 8) | p.extra,
             matches!(v, Verdict::Equal) as u64,
         );
         rep.evaluations += 1;
         rep.steps += 1;
-        rep.sigs.push(mix(mix(seed, p.hit as u64), p.extra));
+        rep.sigs.push(mix(mix(mix(seed, p.addr), p.nth as u64), p.extra));
         rep.checked_oracle += 1;
         let place = format!(
-            "child seed {seed}: thread A frozen {} its synchronising instruction #{} of {} (at +{:#x}){}, thread B run to completion in between",
-            if p.extra == 0 { "just before" } else { "after" },
-            p.hit,
-            seq.len(),
-            seq[p.hit],
+            "child seed {seed}: thread A frozen {} execution #{} of the instruction at {:#x}{} ({}), thread B run to completion in between",
+            if p.extra == 0 { "just before" } else { "just after" },
+            p.nth + 1,
+            p.addr,
             if p.extra > 1 { format!(" plus {} instructions", p.extra - 1) } else { String::new() },
+            if from_conflicts.contains(&p) {
+                "a plain load/store that conflicts with an access of thread B, found by the deep pass"
+            } else {
+                "a point of the synchronisation skeleton"
+            },
         );
         match v {
             Verdict::Equal | Verdict::Skipped => (),
@@ -1125,6 +1371,51 @@ pub fn run(st: &Shared, tier: Tier, rep: &mut RunReport) {
                 rep.count("e6.harness_error", 1);
                 rep.sample = format!("step-sim child seed {seed} {p:?}: {e}");
             }
+        }
+    }
+}
+
+/// `fidget-sim e6probe <seed>`: what the passes see (debugging aid)
+pub fn probe(seed: u64) {
+    let t0 = std::time::Instant::now();
+    let seq = discover(seed);
+    println!(
+        "seed {seed}: skeleton {:?} ({:.3}s)",
+        seq.as_ref().map(|s| s.as_ref().map(|s| s.len())),
+        t0.elapsed().as_secs_f64()
+    );
+    let t0 = std::time::Instant::now();
+    let a = shared_accesses(seed, false, 400_000);
+    let b = shared_accesses(seed, true, 400_000);
+    if let (Ok(Some(a)), Ok(Some(b))) = (&a, &b) {
+        let cp = conflict_points(a, b);
+        println!(
+            "deep: A {} shared accesses ({} writes), B {} ({} writes), {} conflict points ({:.3}s)",
+            a.len(),
+            a.iter().filter(|x| x.write).count(),
+            b.len(),
+            b.iter().filter(|x| x.write).count(),
+            cp.len(),
+            t0.elapsed().as_secs_f64()
+        );
+        if std::env::var_os("E6_DEBUG").is_some() {
+            for x in a.iter().filter(|x| x.write) {
+                println!("  A write rip {:#x} key {:#x}", x.rip - 0x555555554000, x.key);
+            }
+        }
+        for p in cp.iter().take(6) {
+            let t0 = std::time::Instant::now();
+            let r = trial(seed, *p);
+            println!("  trial {p:x?}: {r:?} {:.3}s", t0.elapsed().as_secs_f64());
+        }
+    } else {
+        println!("deep: {:?} {:?}", a.map(|x| x.map(|v| v.len())), b.map(|x| x.map(|v| v.len())));
+    }
+    if let Ok(Some(seq)) = seq {
+        for p in skeleton_points(&seq).iter().take(4) {
+            let t0 = std::time::Instant::now();
+            let r = trial(seed, *p);
+            println!("  trial {p:x?}: {r:?} {:.3}s", t0.elapsed().as_secs_f64());
         }
     }
 }
